@@ -55,6 +55,31 @@ def jobs(tier):
     J.append(A("DVectorMean", loops=["DVectorMean"], clause="frame: only *mean"))
     J.append(A("DVectorSDEV", loops=["DVectorSDEV", "DVectorMean"], clause="frame: only *sdev"))
     J += matrix_jobs(tier)
+    TS = ["tensor.c", "matrix.c", "vector.c", "memwrapper.c", "numeric.c"]
+    # (source blocks, destination blocks before the copy, destination block shape)
+    for (sord, dord, dr, dc) in ([(2, 0, 1, 1), (2, 2, 2, 1), (2, 1, 1, 1), (1, 2, 1, 1), (2, 2, 1, 2)] if tier == "quick" else
+                                 [(2, 0, 1, 1), (2, 2, 2, 1), (2, 1, 1, 1), (1, 2, 1, 1), (2, 2, 1, 2), (0, 1, 1, 1), (1, 1, 3, 3), (2, 3, 1, 1)]):
+        d = {"VC_SORD": sord, "VC_DORD": dord, "VC_DR": dr, "VC_DC": dc}
+        tag = "src=%d,dst=%d,%dx%d" % (sord, dord, dr, dc)
+        J.append(Job("TensorCopy@" + tag, "C14/tensor.c", entry="h_TensorCopy", srcs=TS, kind="bounded", defines=d, unwind=6, functions=["TensorCopy", "AddTensorMatrix", "DelTensor"],
+                     bound="source blocks 2x1 and 1x2 (first %d), destination with %d block(s) of %dx%d; contents symbolic" % (sord, dord, dr, dc),
+                     clause="TensorCopy into an empty or non-empty destination of any shape: deep equal copy, source unchanged, memory safe"))
+    for (sord, dc) in [(0, 2), (1, 1), (2, 2)]:
+        J.append(Job("TensorAppendMatrix@src=%d,c=%d" % (sord, dc), "C14/tensor.c", entry="h_TensorAppendMatrix", srcs=TS, kind="bounded", defines={"VC_SORD": sord, "VC_DC": dc, "VC_DR": 2},
+                     unwind=6, functions=["TensorAppendMatrix"], bound="tensor with %d block(s), appended matrix with %d column(s); contents symbolic" % (sord, dc),
+                     clause="TensorAppendMatrix: one more block, deep equal copy, earlier blocks preserved"))
+    for sord in (1, 2):
+        J.append(Job("tensor_accessors@src=%d" % sord, "C14/tensor.c", entry="h_tensor_accessors", srcs=TS, kind="bounded", defines={"VC_SORD": sord}, unwind=6,
+                     functions=["getTensorValue", "setTensorValue", "TensorSet"], bound="%d block(s); indices and contents symbolic" % sord,
+                     clause="tensor get/set: in range read/written, out-of-range get returns the NaN sentinel; TensorSet fills every cell"))
+    for (n1, n2) in ([(1, 1), (2, 1), (0, 1)] if tier == "quick" else [(1, 1), (2, 1), (0, 1), (2, 2), (1, 0)]):
+        J.append(Job("strvector_extend@n1=%d,n2=%d" % (n1, n2), "C14/strvector.c", entry="h_strvector_extend", srcs=["vector.c", "memwrapper.c", "numeric.c"], kind="bounded",
+                     defines={"VC_N1": n1, "VC_N2": n2}, unwind=8, functions=["StrVectorExtend", "StrVectorAppend", "DelStrVector"], object_bits=10,
+                     bound="string vectors of %d and %d short strings" % (n1, n2), clause="StrVectorExtend: result owns deep copies; deleting every container once frees every block once"))
+    for n1 in ((1, 2) if tier == "quick" else (1, 2, 3)):
+        J.append(Job("strvector_append@n=%d" % n1, "C14/strvector.c", entry="h_strvector_append", srcs=["vector.c", "memwrapper.c", "numeric.c"], kind="bounded",
+                     defines={"VC_N1": n1}, unwind=8, functions=["StrVectorAppend", "initStrVector", "DelStrVector"], object_bits=10,
+                     bound="%d appended short strings" % n1, clause="StrVectorAppend: size+1, own copy of the text, earlier entries preserved"))
     for n0 in ((0, 1, 3) if tier == "quick" else (0, 1, 2, 3, 4, 5)):
         for napp in ((1, 3) if tier == "quick" else (1, 2, 3, 4)):
             for ln in ((0, 2) if tier == "quick" else (0, 1, 2, 3)):
